@@ -260,8 +260,11 @@ def make_form(np, nt, r, form, M, B, K, b, cb_ok, alpha=None, determinate=False)
         T[np.arange(rr), bnew] = 1.0
         P = np.zeros((n, n))
         P[np.arange(n), order] = 1.0              # passed = P @ physical
-        return dict(arg=[Mp, Bp, Kp, T], mats=(Mp, Bp, Kp), T=T, tf=P, form=form,
-                    sel=bnew)
+        m_arg = Mp
+        if form == "phys-drm" and not np.any(Mp - np.diag(np.diag(Mp))) and r.random() < 0.6:
+            m_arg = np.diag(Mp).copy()        # lumped masses handed over as a 1-D vector
+        return dict(arg=[m_arg, Bp, Kp, T], mats=(Mp, Bp, Kp), T=T, tf=P, form=form,
+                    sel=bnew, mass_1d=bool(m_arg.ndim == 1))
     if form == "modal-drm":
         from scipy.linalg import eigh
         w, phi = eigh((K + K.T) / 2, (M + M.T) / 2)
@@ -885,6 +888,20 @@ def run_pair(sh, np, nt, O, frclim, routes, i):
             bound = 100 * (1e-4 / ffix) ** 2 * np.abs(Mrb).max() + 1e-9 * np.abs(Mrb).max()
             sh.check_close("AM-lowfreq-vs-rigid-mass", np.asarray(am)[:, 0, :], Mrb + 0j,
                            bound, case, tags)
+            # exactly 0 Hz: a free component accelerates as a rigid body (a = F/m); the
+            # apparent mass there IS the rigid-body mass, no neglected term
+            try:
+                with warnings.catch_warnings():
+                    warnings.simplefilter("ignore")
+                    with np.errstate(all="ignore"):
+                        am0 = frclim.calcAM([x if x is None else np.array(x) if not
+                                             np.isscalar(x) else x for x in f["arg"]],
+                                            np.array([0.0, 1e-4]))
+            except Exception as e:
+                sh.violation("exception:calcAM-zero-hz", case, {"exc": repr(e)[:400]}, tags)
+                continue
+            sh.check_close("AM-zero-hz-vs-rigid-mass", np.asarray(am0)[:, 0, :], Mrb + 0j,
+                           1e-9 * np.abs(Mrb).max(), case, tags)
 
 
 def run_shard(sh, params):
@@ -902,7 +919,7 @@ def run_shard(sh, params):
         routes.restore()
 
 
-MANDATORY_MON = ["calcAM-inplace-update", "A-vs-coupled", "F-vs-coupled", "SAM-vs-inv-accelerance",
+MANDATORY_MON = ["calcAM-inplace-update", "AM-zero-hz-vs-rigid-mass", "A-vs-coupled", "F-vs-coupled", "SAM-vs-inv-accelerance",
                  "LAM-vs-inv-accelerance", "TAM-eq-SAM-plus-LAM", "R-ratio",
                  "calcAM-pv-vs-inv-accelerance", "calcAM-drm-vs-inv-accelerance",
                  "AM-lowfreq-vs-rigid-mass"]
